@@ -139,9 +139,9 @@ Proof.
   destruct (states_by_name st off rest); try contradiction; exact I.
 Qed.
 
-Lemma parse_start_states_total : forall pe fx st off re, rgood (parse_start_states pe fx st off re).
+Lemma parse_start_states_total : forall pe iw fx st off re, rgood (parse_start_states pe iw fx st off re).
 Proof.
-  intros pe fx st off re. unfold parse_start_states.
+  intros pe iw fx st off re. unfold parse_start_states.
   destruct (starts_with [c_lt] re) eqn:Es; cbn [negb].
   - apply starts_with_1 in Es. destruct Es as [re0 ->].
     pose proof (find_spec (N.eqb c_gt) (c_lt :: re0)) as Hf.
@@ -161,8 +161,8 @@ Proof.
       [| subst j; rewrite !byte_len_app; cbn [byte_len]; change (len_utf8 c_lt) with 1; change (len_utf8 c_gt) with 1; lia ].
     cbn [lift rbind].
     destruct (fix_prefix_unescape fx); [|exact I].
-    destruct (unescape_total (fix_dangling fx) pe b') as [u Hu]. rewrite Hu. exact I.
-  - destruct (unescape_total (fix_dangling fx) pe re) as [u Hu]. rewrite Hu. exact I.
+    destruct (unescape_total (fix_dangling fx) (fix_iw fx && iw) pe b') as [u Hu]. rewrite Hu. exact I.
+  - destruct (unescape_total (fix_dangling fx) (fix_iw fx && iw) pe re) as [u Hu]. rewrite Hu. exact I.
 Qed.
 
 Lemma starts_with_1' : forall c d s, starts_with [c; d] s = true -> exists s', s = c :: s'.
@@ -185,7 +185,7 @@ Definition tgood {A} (P : A -> Prop) (x : tres A) : Prop :=
 
 Section Total.
   Variable src : text.
-  Variables awc pe : bool.
+  Variables awc pe iw : bool.
   Variable re_bad : list nat.
   Variable fx : fixes.
 
@@ -195,7 +195,7 @@ Section Total.
     line_len_at src (byte_len a) = Done (byte_len line0) ->
     errs_ok errs ->
     tgood (fun r => fst r = byte_len a + byte_len line0)
-          (parse_rule src pe re_bad fx (byte_len a) st errs).
+          (parse_rule src pe iw re_bad fx (byte_len a) st errs).
   Proof.
     intros a line0 tl st errs Hsrc Hll Herrs. unfold parse_rule.
     rewrite Hll. cbn [lift lbind].
@@ -222,8 +222,8 @@ Section Total.
     - replace (x ++ c :: y) with (x ++ (c :: y)) by reflexivity.
       rewrite slice_to_app. cbn [lift lbind].
       destruct (trim_end_unescaped_prefix x) as [re1 [w [Hre1 _]]]. rewrite Hre1. cbn [lift lbind].
-      pose proof (parse_start_states_total pe fx st (byte_len a) re1) as Hps.
-      destruct (parse_start_states pe fx st (byte_len a) re1); try contradiction; [|exact I].
+      pose proof (parse_start_states_total pe iw fx st (byte_len a) re1) as Hps.
+      destruct (parse_start_states pe iw fx st (byte_len a) re1); try contradiction; [|exact I].
       cbn [lbind].
       destruct (existsb (Nat.eqb (byte_len a)) re_bad); [exact I|].
       split; [reflexivity|assumption].
@@ -296,7 +296,7 @@ Section Total.
   (* ---- parse_rules ---- *)
   Lemma parse_rules_total : forall fuel a r st errs,
     src = a ++ r -> byte_len r < fuel -> errs_ok errs ->
-    tgood at_end_or_sep (parse_rules src awc pe re_bad fx fuel (byte_len a) st errs).
+    tgood at_end_or_sep (parse_rules src awc pe iw re_bad fx fuel (byte_len a) st errs).
   Proof.
     induction fuel as [|fuel IH]; intros a r st errs Hsrc Hf Herrs; [lia|].
     cbn [parse_rules].
@@ -316,7 +316,7 @@ Section Total.
     { intros c r1' Hc. unfold line0. rewrite Hc. apply take_while_nonempty.
       unfold nls. apply negb_true_iff. eapply drop_while_head. unfold r1 in Hc. exact Hc. }
     assert (Hnext : forall st' errs', errs_ok errs' -> 1 <= byte_len line0 ->
-              tgood at_end_or_sep (parse_rules src awc pe re_bad fx fuel (byte_len a1 + byte_len line0) st' errs')).
+              tgood at_end_or_sep (parse_rules src awc pe iw re_bad fx fuel (byte_len a1 + byte_len line0) st' errs')).
     { intros st' errs' He Hl. replace (byte_len a1 + byte_len line0) with (byte_len (a1 ++ line0))
         by (rewrite byte_len_app; reflexivity).
       apply (IH (a1 ++ line0) tl st' errs' Hsrc2); [lia|assumption]. }
@@ -344,7 +344,7 @@ Section Total.
           -- pose proof (parse_rule_total a1 line0 tl st errs) as Hpr.
              rewrite <- app_assoc in Hsrc2. specialize (Hpr Hsrc2).
              rewrite (line_len_eq a1 (c :: r1') Hsrc1) in Hpr. specialize (Hpr eq_refl Herrs).
-             destruct (parse_rule src pe re_bad fx (byte_len a1) st errs) as [[k st'] errs'|errs' e| |];
+             destruct (parse_rule src pe iw re_bad fx (byte_len a1) st errs) as [[k st'] errs'|errs' e| |];
                try contradiction; [|exact I].
              destruct Hpr as [Hk He]. cbn [fst] in Hk. rewrite Hk.
              apply Hnext; [assumption|]. eapply Hhead. reflexivity.
@@ -525,7 +525,7 @@ Section Total.
   Qed.
 
   Lemma parse_total : forall a r, src = a ++ r ->
-    exists res, parse src awc pe re_bad fx (fuel_for src) (byte_len a) = Done res.
+    exists res, parse src awc pe iw re_bad fx (fuel_for src) (byte_len a) = Done res.
   Proof.
     intros a r Hsrc. unfold parse, parse_declarations.
     rewrite (parse_ws_eq a r Hsrc). cbn [lift lbind].
@@ -542,7 +542,7 @@ Section Total.
       as [[i st] errs|errs e| |]; try contradiction; [|eauto].
     destruct Hd as [[a2 [r2 [Hsrc2 Hi]]] He]. cbn [fst] in Hi. subst i.
     pose proof (parse_rules_total (fuel_for src) a2 r2 st errs Hsrc2 (Hfuel _ _ Hsrc2) He) as Hr.
-    destruct (parse_rules src awc pe re_bad fx (fuel_for src) (byte_len a2) st errs)
+    destruct (parse_rules src awc pe iw re_bad fx (fuel_for src) (byte_len a2) st errs)
       as [[i st'] errs'|errs' e| |]; try contradiction; [|eauto].
     destruct Hr as [[a3 [r3 [Hsrc3 [Hi Hend]]]] He']. cbn [fst] in Hi. subst i.
     rewrite (lookahead_eq _ a3 r3 Hsrc3). cbn [obind].
@@ -560,9 +560,9 @@ End Total.
 
 Lemma lex_parse_total : lex_parse_total_stmt.
 Proof.
-  intros fx src pos awc pe re_bad [s Hs]. unfold lex_from_str. rewrite Hs. cbn [obind].
+  intros fx src pos awc pe iw re_bad [s Hs]. unfold lex_from_str. rewrite Hs. cbn [obind].
   destruct (fix_header fx).
   - apply slice_from_inv in Hs. destruct Hs as [a [Hsrc Ha]]. subst pos.
     eapply parse_total. exact Hsrc.
-  - apply (parse_total s awc pe re_bad fx [] s). reflexivity.
+  - apply (parse_total s awc pe iw re_bad fx [] s). reflexivity.
 Qed.
